@@ -3,8 +3,10 @@ module verif
 go 1.22
 
 require (
+	github.com/google/uuid v1.3.0
 	github.com/pkg/errors v0.9.1
 	github.com/tokenized/bitcoin_reader v0.0.0
+	github.com/tokenized/config v0.2.2
 	github.com/tokenized/logger v0.1.3
 	github.com/tokenized/pkg v0.7.1-0.20230518151913-31bef1f54301
 )
@@ -16,10 +18,8 @@ require (
 	github.com/btcsuite/btcd v0.20.1-beta // indirect
 	github.com/btcsuite/btcutil v1.0.2 // indirect
 	github.com/gomodule/redigo v1.8.2 // indirect
-	github.com/google/uuid v1.3.0 // indirect
 	github.com/jmespath/go-jmespath v0.4.0 // indirect
 	github.com/kelseyhightower/envconfig v1.4.0 // indirect
-	github.com/tokenized/config v0.2.2 // indirect
 	github.com/tokenized/threads v0.1.2 // indirect
 	github.com/tyler-smith/go-bip32 v0.0.0-20170922074101-2c9cfd177564 // indirect
 	golang.org/x/crypto v0.8.0 // indirect
